@@ -27,15 +27,22 @@ def full(t):
     if k == 'bin':
         if t[1] in (' ', ':', ','):
             return '(%s)' % ('%s ' % t[1].strip()).join((full(t[2]), full(t[3])))
-        return '(%s %s %s)' % (full(t[2]), t[1], full(t[3]))
+        r = full(t[3])
+        if r[:1] in ('-', '+'):
+            r = '(%s)' % r          # a signed right operand is parenthesised so the text reads back as the same tree
+        return '(%s %s %s)' % (full(t[2]), t[1], r)
     if k == 'union':
         return '(%s)' % ', '.join(full(a) for a in t[1])
-    if k == 'neg':
-        return '-' + full(t[1])
-    if k == 'pos':
-        return '+' + full(t[1])
+    if k in ('neg', 'pos'):
+        x = full(t[1])
+        if x[:1] in ('-', '+'):
+            x = '(%s)' % x
+        return ('-' if k == 'neg' else '+') + x
     if k == 'pct':
-        return full(t[1]) + '%'
+        x = full(t[1])
+        if x.endswith('%'):
+            x = '(%s)' % x
+        return x + '%'
     if k == 'call':
         return '%s(%s)' % (t[1].upper(), ', '.join(full(a) for a in t[2]))
     if k == 'empty':
